@@ -3,7 +3,7 @@
 (* observation of the implementation must satisfy the reference semantics  *)
 (* of the case's kind.  All lines are judged; the set of rejected line     *)
 (* numbers is printed at the end ("BAD" line) - TLC decides every case.    *)
-EXTENDS TextMatch, ReMatch, Cond, Json, IOUtils, TLC
+EXTENDS TextMatch, ReMatch, Cond, ArenaFile, Json, IOUtils, TLC
 
 VARIABLES l, bad, known
 TraceLog == ndJsonDeserialize(IOEnv.TRACE)
@@ -14,6 +14,8 @@ CaseOK(c) ==
     [] c.kind = "re"   -> StringObsOK(c)
     [] c.kind = "matches" -> c.obs = MatchesOp(c.ast, c.buf, [nocase |-> c.nocase, dotall |-> c.dotall, wide |-> FALSE])
     [] c.kind = "cond" -> c.obs = Verdict(c.ast, c.env)
+    [] c.kind = "load" -> c.ret = LoadBytes(c.file, c.n)
+    [] c.kind = "corrupt" -> CorruptOK(c.ret)
     [] OTHER -> FALSE
 
 \* disagreements that carry the signature of a recorded known finding (decided from the case, spec side)
